@@ -107,7 +107,7 @@ package netsample
 
 // The sample reported for a discarded shot: net code 777, tag "discarded".
 //@ func DiscardedShootSample
-//@ props C04 C10
+//@ props C04 C10 C03
 //@ modifies nothing
 //@ ensures [discarded-sample] fresh(result) && result.tags == "discarded" && result.fields[keyErrno] == 777 && result.fields[keyProtoCode] == 0 && result.err == nil
 //@ ensures DiscardedShootCodeError == 777 && DiscardedShootTag == "discarded"
